@@ -30,6 +30,7 @@ type Program struct {
 	decls    map[*types.Func]*FuncInfo
 	litOwner map[*ast.FuncLit]*FuncInfo
 	graphs   map[ast.Node]*Graph
+	ext      map[*types.Func]*FuncInfo // declarations outside the module registered by ExternalFunc (extdecl.go)
 
 	ssaProg *ssa.Program
 	ssaPkgs []*ssa.Package
@@ -158,6 +159,9 @@ func (p *Program) DeclOf(fn *types.Func) *FuncInfo {
 		return nil
 	}
 	if fi := p.decls[fn]; fi != nil {
+		return fi
+	}
+	if fi := p.ext[fn]; fi != nil {
 		return fi
 	}
 	return p.decls[fn.Origin()]
